@@ -722,10 +722,13 @@ def _in_discrete_branch(tg, node_ast):
 _WHY_RAW = {'raw': 'the user value is stored without unit conversion (units= is ignored, or a value given in the '
                    "input's units lands unconverted in a source with other units)",
             'conv-tgt': "the value converted to the *addressed input's* units is stored in the source, whose "
-                        'units may differ'}
+                        'units may differ',
+            'conv-src': "the value converted to the *source's* units is mirrored into the input vector, which holds "
+                        "the input's own units: get_val(abs_input, from_src=False) and the component see a value "
+                        'off by the unit factor (the sibling branch without indices writes the input-units value)'}
 
 
-@rule('C07.value', floor=5)
+@rule('C07.value', floor=7)
 def value(repo, out):
     """set_val stores convert_set(val -> source units), never the raw or the input-units value."""
     fn = repo.func(CG, 'AllConnGraph.set_val')
@@ -744,6 +747,15 @@ def value(repo, out):
             continue
         if len(c.args) >= 2:
             sinks.append((c, c.args[1], {'conv-src', 'store'}, 'output vector write'))
+    for c in calls_named(fn, '_abs_set_val'):
+        r = astx.receiver(c)
+        if r is None or not any(t == MODEL + '._inputs' for t in tg.tags(r, tg.at(c))):
+            continue
+        if len(c.args) >= 2:
+            if tg.tags(c.args[0], tg.at(c)) != {NODE + '[1]'}:
+                out.unsure(fn, c, 'input vector write does not address the named input itself')
+                continue
+            sinks.append((c, c.args[1], {'conv-tgt'}, 'input vector write'))
     for c in calls_named(fn, 'set_tree_val'):
         if _in_discrete_branch(tg, astx.stmt_of(c)):
             continue
@@ -756,7 +768,7 @@ def value(repo, out):
                 sinks.append((st, st.value, {'conv-src'}, 'source metadata write'))
     for where, v, allowed, label in sinks:
         kinds = _classify_value(repo, tg, v, tg.at(where))
-        wrong = kinds & {'raw', 'conv-tgt'}
+        wrong = kinds & ({'raw', 'conv-src'} if 'conv-tgt' in allowed else {'raw', 'conv-tgt'})
         if wrong:
             k = sorted(wrong)[0]
             out.bad(fn, where, f'{label} `{astx.src(v)}`: {_WHY_RAW[k]}', key=f'unconverted-{label.split()[0]}')
@@ -1613,6 +1625,58 @@ def phase(repo, out):
                 'not reach the output vector', key='carry-missing')
 
 
+# --------------------------------------------------------------------------- C07.names
+@rule('C07.names', floor=2)
+def names(repo, out):
+    """find_node: a name is taken as absolute only if it starts with `<pathname>.` (component boundary)."""
+    fn = repo.func(CG, 'AllConnGraph.find_node')
+    tg = Tagger(fn)
+    PREFIX = "cat(param:pathname,const:'.')"
+    JOIN = f'cat({PREFIX},param:varname)'
+    tests = []
+    for st in astx.walk_stmts(fn.node.body):
+        if isinstance(st, ast.If):
+            def atom(t):
+                return isinstance(t, ast.Call) and astx.callee_attr(t) == 'startswith' and len(t.args) == 1 and \
+                    astx.receiver(t) is not None and tg.tags(astx.receiver(t), tg.at(t)) == {'param:varname'}
+            pol = polarity(st.test, atom)
+            if pol is not None:
+                tests.append((st, pol))
+    if len(tests) != 1:
+        raise AnalysisError(f'{fn.ident}: expected one `varname.startswith(...)` branch, found {len(tests)}')
+    st, pol = tests[0]
+    call = st.test
+    while isinstance(call, ast.UnaryOp):
+        call = call.operand
+    a = tg.tags(call.args[0], tg.at(call))
+    if a == {PREFIX}:
+        out.ok(fn, st, "absolute-name test uses pathname + '.'")
+    elif a == {'param:pathname'}:
+        out.bad(fn, st, "a relative name is taken as absolute whenever it merely starts with the letters of the "
+                "system's pathname (group 'g', child 'gc': g.set_val('gc.x') addresses top-level 'gc.x' or "
+                "fails): the prefix test needs the '.' separator", key='prefix-boundary')
+    else:
+        out.unsure(fn, st, f'prefix argument not recognised ({sorted(a)})')
+    abs_b, rel_b = (st.body, st.orelse) if pol else (st.orelse, st.body)
+
+    def assigned(stmts):
+        res = set()
+        for s2 in astx.walk_stmts(stmts):
+            if isinstance(s2, ast.Assign) and len(s2.targets) == 1 and isinstance(s2.targets[0], ast.Name):
+                res |= tg.tags(s2.value, tg.at(s2))
+        return res
+    ta, tr = assigned(abs_b), assigned(rel_b)
+    if ta == {'param:varname'} and tr == {JOIN}:
+        out.ok(fn, st, "absolute: name itself; relative: pathname + '.' + name")
+    elif ta == {JOIN} and tr == {'param:varname'}:
+        out.bad(fn, st, 'the system pathname is prepended to names that already carry it and omitted for relative '
+                'names', key='prefix-branches')
+    elif tr == {'cat(param:pathname,param:varname)'}:
+        out.bad(fn, st, "relative names are joined to the pathname without the '.' separator", key='prefix-join')
+    else:
+        out.unsure(fn, st, f'name construction not recognised (absolute {sorted(ta)}, relative {sorted(tr)})')
+
+
 # --------------------------------------------------------------------------- self-test
 _DEF_UNITS = "        if units is None:\n            units = tgt_units\n"
 _WB = ("            sub = chain[i + 1]\n            prev = chain[i]\n            idx = indices_list[i]\n"
@@ -1785,15 +1849,36 @@ selftest(
          "            if sub.base is prev:\n                continue\n"
          "            idx.indexed_val_set(prev, sub)"),
     Twin('twin-wb-guard-or-none', CG, 'if sub.base is not prev:', 'if sub.base is None or sub.base is not prev:'),
-    # ---- resolve (pre-fix shape is today's tree; the mutant below becomes applicable once the guard exists)
+    # ---- resolve (pre-fix shape = guard removed)
     Mutant('resolve-guard-removed', CG, 'if val is not None and (self._first_pass or node_meta.val is None):',
            'if val is not None:', 'C07.resolve'),
-    Twin('twin-resolve-guarded', CG, "                if val is not None:\n                    if node[1].startswith('_auto_ivc.'):",
-         "                if val is not None and (self._first_pass or node_meta.val is None):\n"
-         "                    if node[1].startswith('_auto_ivc.'):"),
+    Twin('twin-resolve-guard-rewritten', CG, 'if val is not None and (self._first_pass or node_meta.val is None):',
+         'if val is not None and not (node_meta.val is not None and not self._first_pass):'),
+    Mutant('resolve-guard-only-not-first', CG, 'if val is not None and (self._first_pass or node_meta.val is None):',
+           'if val is not None and (not self._first_pass or node_meta.val is None):', 'C07.resolve'),
     Twin('twin-resolve-guarded-outer', CG, "            if not ambig_val:\n                val = self.get_val_from_children(",
          "            if not ambig_val and (node_meta.val is None or self._first_pass):\n"
          "                val = self.get_val_from_children("),
+    # ---- seeded round 3
+    Mutant('value-input-gets-source-units', CG, 'model._inputs._abs_set_val(node[1], tval, idx=indices())',
+           'model._inputs._abs_set_val(node[1], sval, idx=indices())', 'C07.value'),
+    Mutant('value-input-gets-raw', CG, 'model._inputs._abs_set_val(node[1], tval)\n',
+           'model._inputs._abs_set_val(node[1], val)\n', 'C07.value'),
+    Mutant('value-scalar-source-raw', CG, '                srcval = sval\n\n            model._outputs',
+           '                srcval = val\n\n            model._outputs', 'C07.value'),
+    Mutant('names-prefix-without-dot', CG, "            prefix = pathname + '.'\n            if varname.startswith(prefix):",
+           "            if varname.startswith(pathname):", 'C07.names'),
+    Mutant('names-join-without-dot', CG, "                name = pathname + '.' + varname\n        else:\n            name = varname\n\n        if io is None:",
+           "                name = pathname + varname\n        else:\n            name = varname\n\n        if io is None:", 'C07.names'),
+    Mutant('names-branches-swapped', CG, "            if varname.startswith(prefix):\n                name = varname",
+           "            if not varname.startswith(prefix):\n                name = varname", 'C07.names'),
+    Twin('twin-names-flipped', CG,
+         "            if varname.startswith(prefix):\n                name = varname\n            else:\n"
+         "                name = pathname + '.' + varname\n",
+         "            if not varname.startswith(pathname + '.'):\n                name = prefix + varname\n"
+         "            else:\n                name = varname\n"),
+    Twin('twin-value-input-inline', CG, 'model._inputs._abs_set_val(node[1], tval, idx=indices())',
+         'mirrored = tval\n                    model._inputs._abs_set_val(node[1], mirrored, idx=indices())'),
     # ---- twins
     Twin('twin-units-flip-compare', CG, '            if src_units != units:', '            if units != src_units:'),
     Twin('twin-units-commuted-formula', CG, 'return (val + offset) * scale', 'return scale * (offset + val)', nth=1),
